@@ -82,3 +82,32 @@ pub fn min_pd(a: __m128d, b: __m128d) -> __m128d {
     let f = |x: f64, y: f64| if x < y { x } else { y };
     vpd([f(p[0], q[0]), f(p[1], q[1])])
 }
+
+// Arithmetic: Kani 0.68 translates `_mm_add_ps` etc. through `simd_add`, attaches an (integer-style) overflow check to it that fails
+// spuriously on floats AND assumes the "overflowing" inputs away afterwards, which silently removes inputs from the harness
+// (observed: after `splat(x) + splat(180.0)` the value x = -181 is no longer reachable). The arithmetic intrinsics are therefore
+// replaced by lane-wise scalar IEEE operations as well.
+macro_rules! arith_ps {
+    ($name:ident, $op:tt) => {
+        pub fn $name(a: __m128, b: __m128) -> __m128 {
+            let (p, q) = (ps(a), ps(b));
+            vps([p[0] $op q[0], p[1] $op q[1], p[2] $op q[2], p[3] $op q[3]])
+        }
+    };
+}
+macro_rules! arith_pd {
+    ($name:ident, $op:tt) => {
+        pub fn $name(a: __m128d, b: __m128d) -> __m128d {
+            let (p, q) = (pd(a), pd(b));
+            vpd([p[0] $op q[0], p[1] $op q[1]])
+        }
+    };
+}
+arith_ps!(add_ps, +);
+arith_ps!(sub_ps, -);
+arith_ps!(mul_ps, *);
+arith_ps!(div_ps, /);
+arith_pd!(add_pd, +);
+arith_pd!(sub_pd, -);
+arith_pd!(mul_pd, *);
+arith_pd!(div_pd, /);
